@@ -140,18 +140,21 @@ FANOUT_ALPHA = [("publish", "m", "p", "s", None), ("deliver", "m", "n"), ("deliv
                 ("objremove", "m", "p"), ("objadd", "m", "p")]
 
 
-def run_fanout(seq, rng):
-    """One publisher context m and two subscriber contexts n, n1 subscribed to the same signal."""
+def run_fanout(seq, rng, sig2="s"):
+    """One publisher context m and two subscriber contexts n, n1 subscribed to the same signal (sig2 = "s") or
+    to two signals one of whose names is a prefix of the other (sig2 = "s1")."""
     sim = S.Sim({"n": [], "n1": [], "m": ["p"]})
     ctr = [0]
-    for op in FANOUT_PREFIX + list(seq):
+    pre = [op if not (op[0] == "sub" and op[1] == "n1") else op[:4] + (sig2,) + op[5:] for op in FANOUT_PREFIX]
+    for op in pre + list(seq):
         if op[0] == "publish":
             ctr[0] += 1
             op = op[:4] + (ctr[0],)
         sim.do(op)
     finish(rng, sim, ctr, probes=0)
-    ctr[0] += 1
-    sim.do(("probe", "m", "p", "s", 1000000 + ctr[0]))
+    for sg in sorted({"s", sig2}):
+        ctr[0] += 1
+        sim.do(("probe", "m", "p", sg, 1000000 + ctr[0]))
     for x in sim.names:
         sim.do(("check", x))
     return sim
@@ -465,6 +468,13 @@ def run_sims(ck, profile):
                 continue
             seen.add(sig)
             sims.append((sim, "fanout-2-subscriber-contexts"))
+    for d in range(0, 2 if ck.tier == "quick" else 3):
+        for seq in itertools.product(FANOUT_ALPHA, repeat=d):
+            sim = run_fanout(seq, rng, sig2="s1")
+            sig = repr([e.get("label") for e in sim.trace])
+            if sig not in seen:
+                seen.add(sig)
+                sims.append((sim, "fanout-prefix-named-signals"))
     nrand = (500 if ck.tier == "quick" else 20000)
     for _ in range(nrand):
         sims.append((random_history(rng, profile), "random"))
